@@ -17,10 +17,13 @@ import corerun
 # which generator profile and how many programs per tier
 PROFILE = {
     "C01": dict(kinds=None, quick=260, thorough=4000),
-    "C02": dict(kinds=("fd", "tk", "tm"), quick=300, thorough=5000),
-    "C03": dict(kinds=("fd", "tk", "ev"), quick=300, thorough=5000),
-    "C04": dict(kinds=("tm", "fd", "tk"), quick=300, thorough=5000),
-    "C05": dict(kinds=("tm", "tk"), quick=300, thorough=5000),
+    "C02": dict(kinds=("fd", "tk", "tm"), quick=300, thorough=5000,
+                modes=["random", "multiready", "multiready", "churn", "churn", "regchurn", "regchurn"], nfd=4),
+    "C03": dict(kinds=("fd", "tk", "ev"), quick=300, thorough=5000,
+                modes=["random", "multiready", "multiready", "churn", "regchurn", "regchurn", "regchurn"], nfd=4),
+    "C04": dict(kinds=("tm", "fd", "tk"), quick=300, thorough=5000,
+                modes=["random", "timers", "timers", "timers", "heap", "heap", "tasks"]),
+    "C05": dict(kinds=("tm", "tk"), quick=300, thorough=5000, modes=["random", "timers", "heap", "heap", "heap"]),
     "C06": dict(kinds=("tk", "fd", "tm", "ev"), quick=300, thorough=5000),
     "C07": dict(kinds=None, quick=260, thorough=4000),
     "C15": dict(kinds=None, quick=220, thorough=3000),
@@ -90,7 +93,8 @@ def run(pid, tier, seed, replay=None):
         else:
             n = prof[tier]
             fg = fault_plans if pid == "C15" else (c07_faults if pid == "C07" else None)
-            scripts = coregen.gen_scripts(seed, n, kinds=prof["kinds"], faultgen=fg, prefix=pid + "r")
+            scripts = coregen.gen_scripts(seed, n, kinds=prof["kinds"], faultgen=fg, prefix=pid + "r",
+                                          modes=prof.get("modes"), nfd=prof.get("nfd", 3))
             gs, gen_total, gen_all = coremc.gen_scripts(mch, pid, tier, seed, coregen.METHODS)
             scripts += gs
             if pid == "C01":
